@@ -68,6 +68,11 @@ def mutate(rnd, v, d):
         return ("a", es)
     if k == "t":
         es = list(v[1])
+        r = rnd.random()
+        if r < 0.2 and len(es) > 2:
+            return ("t", es[:-1])            # a proper prefix: equal element by element as far as it goes, another length
+        if r < 0.4:
+            return ("t", es + [gen_value(rnd, 0)])
         j = rnd.randrange(len(es))
         es[j] = mutate(rnd, es[j], d)
         return ("t", es)
